@@ -49,7 +49,9 @@ Fixpoint nopy_walk (fuel : nat) (st : store) (cur : nat) (e : nat) : store :=
   else st end.
 
 Inductive out := Ret (target : nat) | Exc (e : nat).
-Definition recfn := store -> nat -> nat -> tspec -> store * out.   (* store, parent frame, target, spec *)
+Definition recfn := store -> nat -> nat -> tspec -> store * out.
+(* does the frame already carry this very error? *)
+Definition same_err (o : option nat) (e : nat) : bool := match o with Some x => Nat.eqb x e | None => false end.   (* store, parent frame, target, spec *)
 
 (* a dict spec builds a new container: named after the spec occurrence that built it *)
 Fixpoint nest_loop (rec : recfn) (sid : nat) (st : store) (f t : nat) (kids : list tspec) : store * out :=
@@ -104,6 +106,10 @@ Fixpoint glom_ (fuel : nat) (st : store) (parent t : nat) (s : tspec) {struct fu
   match r with
   | Ret v => (st, Ret v)
   | Exc e =>
+      (* a spec that fails with the very error its parent already carries (raised by a child of the parent that was evaluated
+         while this spec ran: an item of a lazy stream) is not another failure — never the case in this eager model, where the
+         parent of a running spec carries no error (Proofs/TraceFull.v keeps that as a precondition of every evaluation) *)
+      if same_err (f_err (get st parent)) e then (upd st f (set_err e), Exc e) else
       let st := upd st parent (add_cerr f) in
       let st := upd st f (set_err e) in
       let st := if f_nopy (get st parent) then nopy_walk (List.length st) st parent e else st in
